@@ -78,3 +78,36 @@ register("C18", run=run_c18, tie="coq/Codec/Cases.v vs messages.go/config.go/tas
          level_text="Theorems: round trip + exact framing, truncation is an error, decoders are prefix-closed on arbitrary input, "
                     "task-response kinds, value-file round trip for all 64-bit pairs; all proved for every value (no bound). "
                     "Tie: differential execution of the real encode/decode methods against the model on generated values.")
+
+
+# ------------------------------------------------------------------ C13
+
+def run_c13(pid, tier, seed):
+    wd = vlib.workdir(pid)
+    nseq, nops = (70, 40) if tier == "quick" else (1200, 60)
+    rc, out = vlib.vh(["log", "ops", seed, nseq, nops, wd], timeout=1800)
+    if rc != 0:
+        return {"tie_broken": "vh log ops failed: " + out[-1500:]}
+    meta = json.load(open(os.path.join(wd, "log_meta.json")))
+    viols, broken = eval_cases(wd, "cases_log_*.v", meta, pid, "log")
+    for e in meta.get("errors") or []:
+        viols.append({"signature": "log-error " + e.split(":")[1].strip()[:30] if ":" in e else e[:30], "detail": e, "found": True,
+                      "replay": {"property": pid, "kind": "unexpected error from the real log package", "what": e, "seed": seed}})
+    cov = {"evaluations": meta["cases"], "distinct_nontrivial": meta["distinct_states"],
+           "rule": "random operation sequences (append with sizes 0 / small / half / exactly-fitting / beyond an empty segment / beyond the "
+                   "segment size, Commit, CommitN, RemoveLTE/RemoveGTE/Reset at indices around segment boundaries, close+reopen with another "
+                   "segment size, views read while appends continue, reads incl. out-of-range) on the real package in a scratch directory; every "
+                   "step is compared from the implementation's own pre-state: outcome + full post-state (segments, capacities, entries, synced) "
+                   "and every read result. distinct_nontrivial = number of distinct pre-states (whole-log dumps) visited",
+           "samples": meta["samples"], "distribution": meta["dist"], "case_files": meta["files"]}
+    return {"violations": viols, "coverage": cov, "tie_broken": broken}
+
+
+register("C13", run=run_c13, tie="coq/SegLog/Cases.v vs log/log.go, log/segment.go, log/util.go",
+         assumptions=["no I/O errors from the file system", "views are read only while the writer appends/commits (the documented contract of ViewAt)",
+                      "single-threaded harness: Go-memory-model visibility of concurrent view reads is outside the model"],
+         trusted=["boolean equalities of SegLog/Cases.v", "state dump dumpLog (go/inlog/ops.go): reads the offset table of each mapped segment"],
+         level_text="Theorems (every operation sequence, entry size, segment size, index): the segment chain stays well formed and each "
+                    "operation moves the abstract sequence as specified; reads agree with the sequence; GetN concatenates across segments; "
+                    "RemoveLTE removes whole segments up to CanLTE, never beyond i; a view's reads are unchanged by later appends. "
+                    "Tie: per-step differential execution against the real package.")
